@@ -220,9 +220,33 @@ func (p *Pop) create(op string) {
 		})
 	case "Clone":
 		a := p.pick()
+		if !p.live[a].ZC && !p.live[a].B.GetCopyOnWrite() && r.Chance(0.4) {
+			c.Step("%s.SetCopyOnWrite(true)", p.name(a))
+			c.Guard(sig, func() { p.live[a].B.SetCopyOnWrite(true) })
+		}
 		c.Step("b%d = Clone(%s)", p.nextName, p.name(a))
 		c.Guard(sig, func() { res = p.live[a].B.Clone() })
 		want = p.live[a].M.Clone()
+		if res != nil && !c.Failed() && r.Chance(0.5) && !want.IsEmpty() {
+			// right after the clone one side writes into one chunk (the first one, or any): from here on the family has
+			// MIXED per-chunk sharing flags, the state in which flag bookkeeping slips become visible
+			ivs := want.Intervals()
+			v := ivs[0]
+			if r.Chance(0.4) {
+				v = ivs[r.Intn(len(ivs))]
+			}
+			y := (v.Lo &^ 0xFFFF) | edgeVal16(r)
+			if r.Chance(0.5) {
+				c.Step("the new clone: Add(%d)", y)
+				c.Guard(sig, func() { res.Add(uint32(y)) })
+				want.Add(y)
+			} else {
+				c.Step("%s.Add(%d)", p.name(a), y)
+				c.Guard(sig, func() { p.live[a].B.Add(uint32(y)) })
+				p.live[a].M.Add(y)
+			}
+			c.Count("clone_then_private_write")
+		}
 	case "And", "Or", "Xor", "AndNot":
 		a, b := p.pick(), p.pick()
 		c.Step("b%d = %s(%s,%s)", p.nextName, op, p.name(a), p.name(b))
